@@ -52,6 +52,7 @@ Clauses(g, pre, e, post) ==
           THEN {"AuthGate"} ELSE {})
   \cup (IF \E i \in Ids(post) : ~g2.authed[i] /\ (IpcpAckFor(e, i) \/ IpcpAddrFor(e, i))
           THEN {"AuthGate"} ELSE {})
-  \cup (IF e.sid # 0 /\ e.sid \in Ids(pre) /\ pre.present[e.sid] /\ e.m # g.owner[e.sid] /\ Rec(pre, e.sid) # Rec(post, e.sid)
+  \* whichever session id the frame names: no session of another owner changes (frames, i.e. e.m # 0, only)
+  \cup (IF e.m # 0 /\ \E i \in Ids(pre) : pre.present[i] /\ e.m # g.owner[i] /\ Rec(pre, i) # Rec(post, i)
           THEN {"ForeignInert"} ELSE {})
 =============================================================================
